@@ -120,6 +120,7 @@ class StandardObserver:
             "phase": ("none" if getattr(ns, "proposal", None) is None else
                       "uninformed" if ns.proposal is ns._uninformed_proposal else "flow"),
             "sched": repr(getattr(ns, "_last_checkpoint", None)),
+            "prior_sampling": bool(getattr(ns, "prior_sampling", False)),
         }
 
     counts_resume = counts
